@@ -829,6 +829,18 @@ fn directed(ctx: &mut Ctx) {
         v.extend(vec![b'z'; 65_536]);
         v
     };
+    // lines around powers of two up to 2 MiB (a reader that cuts, caps or re-buffers a line at some
+    // round size must still deliver it whole): 2^20 - 1 bytes + CRLF, 2^20 + LF, 2^21 + 3 unterminated
+    let very_long: Vec<u8> = {
+        let mut v = b"head\n".to_vec();
+        v.extend(vec![b'a'; (1 << 20) - 1]);
+        v.extend_from_slice(b"\r\n");
+        v.extend(vec![b'b'; 1 << 20]);
+        v.push(b'\n');
+        v.extend_from_slice(b"\nmid\n");
+        v.extend(vec![b'c'; (1 << 21) + 3]);
+        v
+    };
     let mut texts: Vec<Vec<u8>> = vec![
         b"".to_vec(),
         b"\n".to_vec(),
@@ -847,6 +859,7 @@ fn directed(ctx: &mut Ctx) {
         b"one\ntwo\r\nthree\n\nfive".to_vec(),
         "h\u{e9}llo\n\u{20ac}\r\n\u{1f600}\u{10ffff}\u{800}\u{7ff}\u{d7ff}\u{e000}\u{10000}\u{90000}\n\u{80}".as_bytes().to_vec(),
         long,
+        very_long,
     ];
     // every ill-formed fragment: as a whole LF-terminated line, before CRLF, and as unterminated tail
     for frag in BAD_UTF8 {
